@@ -5,6 +5,7 @@ import (
 	"go/ast"
 	"go/token"
 	"go/types"
+	"os"
 	"sort"
 	"strings"
 
@@ -15,7 +16,7 @@ func init() {
 	register(&propertyDef{
 		id:    "C08",
 		title: "accepted workflows are type-sound",
-		rules: []ruleFunc{c08R1, c08R2, c08R3, c08R4, c08R5, c08R6, c08R7, c08R8, c08R9, c08R10},
+		rules: []ruleFunc{c08R1, c08R2, c08R3, c08R4, c08R5, c08R6, c08R7, c08R8, c08R9, c08R10, c08R11},
 		decided: "writer/reader agreement for every engine-generated step output: each (stage, output id) a provider reports with a literal value is declared in that provider's Lifecycle, the value is in serialized (map) form, its key set equals the declared object's properties and every key's Go type matches the property's schema constructor (R1); " +
 			"stage inputs are validated before hand-over (R2 = C02.R6); the returned output is validated (R3 = C03.R4); the workflow input is validated first (R4 = C19.R1); a loop step lists an item under `success` only after comparing the sub-run's output id with \"success\" (R5). Shared: the data model holds the normalised input on every path (R6 = C19.R2). The declared schemas of engine-generated outputs carry no constraint the producing code does not establish (R1c); the typing walkers descend into every element (R7 = C02.R7).",
 		notDecided: "soundness of ValidateCompatibility and of type inference (needs generated workflows); conformance of what a plugin itself sends (no engine-side validation exists).",
@@ -751,4 +752,98 @@ func c08R10(c *Ctx) {
 		}
 	}
 	c.minCount(rule, "integer kinds with an inferred schema", n, 10)
+}
+
+// C08.R11 a provider does not refuse a stage input value that its declared schema accepts.
+func c08R11(c *Ctx) {
+	const rule = "C08.R11"
+	c.explain("C08.R11 in the functions that take a stage input (ProvideStageInput of each provider and the helpers it dispatches to), no error return is taken on a condition over a value that the declared schema's Unserialize has just accepted: Prepare and the run loop validate stage inputs against the schema the provider publishes, so a narrower private limit turns an accepted workflow into `bug: failed to provide input to step` at run time")
+	n := 0
+	cnt := map[string]int{}
+	for _, top := range c.ifaceMethodImpls(pkgStep, "RunningStep", "ProvideStageInput") {
+		if p := pkgPathOf(top); p != pkgPlugin && p != pkgForeach {
+			continue
+		}
+		for _, fn := range c.logicalBody(top) {
+			if os.Getenv("ARCA_DEBUG_C08R11") != "" {
+				fmt.Fprintln(os.Stderr, "C08.R11 scanning", c.fnName(fn))
+			}
+			// values accepted by a schema
+			accepted := func(v ssa.Value) bool {
+				return derivesFrom(v, func(x ssa.Value) bool {
+					ex, ok := x.(*ssa.Extract)
+					if !ok || ex.Index != 0 {
+						return false
+					}
+					call, ok := ex.Tuple.(*ssa.Call)
+					if !ok {
+						return false
+					}
+					cc := call.Common()
+					name := ""
+					if cc.IsInvoke() {
+						name = cc.Method.Name()
+					} else if f := cc.StaticCallee(); f != nil {
+						name = f.Name()
+					}
+					return name == "Unserialize" || name == "UnserializeType"
+				})
+			}
+			eachInstr(fn, func(r instrRef) {
+				ifi, ok := r.I.(*ssa.If)
+				if !ok {
+					return
+				}
+				var overAccepted func(v ssa.Value, d int) bool
+				overAccepted = func(v ssa.Value, d int) bool {
+					if d > 4 {
+						return false
+					}
+					switch x := v.(type) {
+					case *ssa.BinOp:
+						return overAccepted(x.X, d+1) || overAccepted(x.Y, d+1)
+					case *ssa.UnOp:
+						if x.Op == token.NOT || x.Op == token.SUB {
+							return overAccepted(x.X, d+1)
+						}
+					case *ssa.Convert:
+						return overAccepted(x.X, d+1)
+					case *ssa.Const:
+						return false
+					}
+					return accepted(v)
+				}
+				if !overAccepted(ifi.Cond, 0) {
+					return
+				}
+				n++
+				// does one edge lead only to error returns?
+				for succ := 0; succ < 2; succ++ {
+					refuses := false
+					eachInstr(fn, func(r2 instrRef) {
+						ret, isRet := r2.I.(*ssa.Return)
+						if !isRet {
+							return
+						}
+						res := retResults(ret)
+						if len(res) == 0 || isNilConst(res[len(res)-1]) {
+							return
+						}
+						if _, isErr := res[len(res)-1].Type().Underlying().(*types.Interface); !isErr {
+							return
+						}
+						if r2.Block == r.Block.Succs[succ] && len(r2.Block.Preds) == 1 || edgeDominates(r.Block, succ, r2.Block) {
+							refuses = true
+						}
+					})
+					if refuses {
+						cnt[c.fnName(fn)]++
+						c.bad(rule, fmt.Sprintf("refusal@%s#%d", c.fnName(fn), cnt[c.fnName(fn)]), c.instrPos(ifi), "an error return depends on a condition over a value that the declared stage input schema accepted: the provider refuses at run time what Prepare accepted")
+					}
+				}
+			})
+		}
+	}
+	c.Stats["c08_conditions_on_accepted_values"] = n
+	c.ok(rule, "scanned", "-", fmt.Sprintf("%d conditions over schema-accepted values in the stage input functions, none of them guards an error return", n), false)
 }
